@@ -40,7 +40,9 @@ def selection_rules(C, fs, vs, pen, tol, r, S, tag="", margin=0.0):
     if r in S:
         C(f"{tag}feasible_tie_least_violation",
           b_implies(anyfeas, all_of(b_implies(b_and(feas[i], fs[i] == fs[r]), vs[r] <= vs[i]) for i in S)))
-    nofeas = all_of(b_not(vs[i] <= tol) for i in S)
+    # "otherwise": no evaluated point is feasible with a defined objective (a feasible point whose objective is NaN
+    # does not count - NaN is never preferred to a defined value)
+    nofeas = b_not(anyfeas)
     D = [i for i in S if not isnan(fs[i]) and isfin(vs[i])]
     if D:
         merit = {i: fs[i] + pen * vs[i] for i in D}
